@@ -9,17 +9,18 @@
 package main
 
 import (
-	"io"
-	"log"
 	"crypto/sha256"
 	"encoding/hex"
 	"encoding/json"
 	"flag"
 	"fmt"
+	"io"
+	"log"
 	"os"
 	"path/filepath"
 	"runtime"
 	"sort"
+	"strings"
 	"sync"
 	"time"
 )
@@ -346,9 +347,12 @@ func cmdRun(args []string) int {
 			f = Finding{Case: i, Sig: sig, What: what, Kind: "violation"}
 			f.Replay = writeReplay(*replays, *propID, *seed, i, "failing-input", small, what, v.Disagree)
 		} else {
+			// shrink towards the *same* disagreement (same place in the result, indices aside): a smaller input that
+			// merely disagrees somewhere else - e.g. because a derived part of the case was cut away - is not accepted
+			where := disagreeSig(r.v.Disagree)
 			small := shrinkJSON(in, func(c any) bool {
 				v, e := runCase(p, shrinkDriver, c.(map[string]any))
-				return e == "" && v.Disagree != ""
+				return e == "" && v.Disagree != "" && disagreeSig(v.Disagree) == where
 			}, 400).(map[string]any)
 			v, _ := runCase(p, shrinkDriver, small)
 			f = Finding{Case: i, Sig: "correspondence", What: v.Disagree, Kind: "disagreement"}
@@ -426,6 +430,20 @@ func runCase(p Prop, d *Driver, in map[string]any) (v Verdict, errStr string) {
 	case <-time.After(20 * time.Second):
 		return Verdict{Violations: []Viol{{Sig: "hang", What: "the call did not return within 20 s"}}}, ""
 	}
+}
+
+// disagreeSig: the place of a disagreement with the indices removed ("variant[].result.trips[].stopTimes[].arrival").
+func disagreeSig(d string) string {
+	if i := strings.Index(d, ": "); i >= 0 {
+		d = d[:i]
+	}
+	var sb strings.Builder
+	for _, c := range d {
+		if c < '0' || c > '9' {
+			sb.WriteRune(c)
+		}
+	}
+	return sb.String()
 }
 
 func digest(v any) string {
